@@ -1,8 +1,8 @@
-(* C12 finite-domain results: the computed checks (FiniteSkel.v, FinitePdag.v) lifted to quantified
+(* C12 finite-domain results: the computed checks (FinitePdag.v) lifted to quantified
    statements; the bound (<= 4 labelled nodes) and the iteration orders exercised appear in every statement.
    Also the witnesses of the two refutations. *)
 From Coq Require Import List Bool Arith PeanoNat Lia.
-From PV Require Import Base.Reach Base.Graph C08.Model C12.Model C12.Spec C12.FiniteDefs C12.FiniteSkel C12.FinitePdag C12.ToDag.
+From PV Require Import Base.Reach Base.Graph C08.Model C12.Model C12.Spec C12.FiniteDefs C12.FinitePdag C12.ToDag C12.Skeleton.
 Import ListNotations.
 
 Lemma forallb_In {A} (f : A -> bool) (l : list A) (x : A) : forallb f l = true -> In x l -> f x = true.
@@ -11,12 +11,6 @@ Proof. intros H Hi. rewrite forallb_forall in H. exact (H x Hi). Qed.
 Lemma le4_in5 n : n <= 4 -> In n [0; 1; 2; 3; 4].
 Proof. intros H. do 5 (destruct n as [|n]; [simpl; tauto|]). lia. Qed.
 
-Lemma chk_skel_le4 n : n <= 4 -> chk_skel n = true.
-Proof.
-  intros Hn. destruct (Nat.eq_dec n 4) as [->|Hne]; [exact chk_skel_4|].
-  apply (forallb_In _ _ n chk_skel_upto3).
-  do 4 (destruct n as [|n]; [simpl; tauto|]). lia.
-Qed.
 Lemma chk_pdag_le4 n : n <= 4 -> chk_pdag n = true.
 Proof.
   intros Hn. destruct (Nat.eq_dec n 4) as [->|Hne]; [exact chk_pdag_4|].
@@ -24,31 +18,29 @@ Proof.
   do 4 (destruct n as [|n]; [simpl; tauto|]). lia.
 Qed.
 
-Lemma in_variants vr : In vr variants.
+Lemma in_variants vr : vr <> Parallel -> In vr variants.
 Proof. destruct vr; simpl; tauto. Qed.
 
-Lemma skeleton_exact_upto4 : forall n g vr maxc vars sord,
-  n <= 4 -> In g (all_dags n) -> In (vars, sord) (orders n) -> In maxc (maxcs g) ->
-  skeleton_exactb g (build_skeleton vr (dsep_oracle g) maxc vars sord) = true.
+Lemma cpdag_exact_upto4_os : forall n g vr vars sord,
+  vr <> Parallel -> n <= 4 -> In g (all_dags n) -> In (vars, sord) (orders n) ->
+  cpdag_exactb g vars (pc_pdag vr (dsep_oracle g) n vars sord) = true.
 Proof.
-  intros n g vr maxc vars sord Hn Hg Ho Hm.
-  pose proof (chk_skel_le4 n Hn) as H1. unfold chk_skel in H1.
-  pose proof (forallb_In _ _ _ H1 Hg) as H2. cbv beta in H2.
+  intros n g vr vars sord Hvr Hn Hg Ho.
+  pose proof (chk_pdag_le4 n Hn) as H1. unfold chk_pdag in H1.
+  pose proof (forallb_In _ _ _ H1 Hg) as H2. cbv beta zeta in H2.
   pose proof (forallb_In _ _ _ H2 Ho) as H3. cbv beta in H3.
-  pose proof (forallb_In _ _ _ H3 Hm) as H4. cbv beta in H4.
-  exact (forallb_In _ _ _ H4 (in_variants vr)).
+  pose proof (forallb_In _ _ _ H3 (in_variants vr Hvr)) as H4. cbv beta in H4.
+  unfold cpdag_exactb. exact H4.
 Qed.
 
 Lemma cpdag_exact_upto4 : forall n g vr vars sord,
   n <= 4 -> In g (all_dags n) -> In (vars, sord) (orders n) ->
   cpdag_exactb g vars (pc_pdag vr (dsep_oracle g) n vars sord) = true.
 Proof.
-  intros n g vr vars sord Hn Hg Ho.
-  pose proof (chk_pdag_le4 n Hn) as H1. unfold chk_pdag in H1.
-  pose proof (forallb_In _ _ _ H1 Hg) as H2. cbv beta zeta in H2.
-  pose proof (forallb_In _ _ _ H2 Ho) as H3. cbv beta in H3.
-  pose proof (forallb_In _ _ _ H3 (in_variants vr)) as H4. cbv beta in H4.
-  unfold cpdag_exactb. exact H4.
+  intros n g vr vars sord Hn Hg Ho. destruct vr.
+  - apply cpdag_exact_upto4_os; [discriminate|assumption..].
+  - apply cpdag_exact_upto4_os; [discriminate|assumption..].
+  - rewrite pc_pdag_parallel_stable. apply cpdag_exact_upto4_os; [discriminate|assumption..].
 Qed.
 
 (* the PDAG object depends on the arc list only as a set *)
